@@ -13,6 +13,15 @@ CLAIMED = {
  'C02': ('property-based differential and round-trip testing: exhaustive structured (key, block) families, S-box-lane-targeted and inverted-key-schedule constructions, proptest random pairs and stateful call histories against an independent SM4; OpenSSL golden corpus',
          'Generated-input search with an independent reference as oracle, both directions plus both round trips on every case: 128x128 single-bit and 256x256 repeated-byte (key, block) pairs exhaustively, every S-box input value through every lane of round 1 (data path and key schedule), keys built by inverting the key schedule from structured final round keys, 2*10^5 (thorough 4*10^6) proptest pairs, and call histories on one cipher object compared step by step with a fresh object, the reference and its own clone.',
          'Trusted: harness/src/refimpl/sm4.rs (S-box generated algebraically and checked bijective, CK from its formula; anchored on GB/T 32907 examples 1 and 2 and 256 OpenSSL ECB triples).', '5/C02'),
+ 'C07': ('property-based differential and round-trip testing of the four modes: exhaustive data lengths 0..=200, carry-IV family, crafted CBC final-byte ciphertexts, IV-length error grid, proptest random cases against textbook modes over an independent SM4; OpenSSL golden corpus',
+         'Generated-input search against independent textbook CBC(PKCS#7)/CFB-128/OFB/CTR(128-bit BE counter) over the reference SM4: exact ciphertext, round trip and output length for every length 0..=200 per mode, IVs with 1..16 trailing 0xFF bytes (carry through every byte and wrap-around) over >= 4 blocks, random data to 2^12 (thorough 2^14) bytes; decryption of arbitrary byte strings judged by the reference (CBC: empty and ragged lengths and every final plaintext byte 0..255 crafted with unpadded CBC); IV lengths 0..=40 except 16 must be Err in both directions.',
+         'Trusted: reference modes anchored on 868 OpenSSL enc -sm4-{cbc,cfb,ofb,ctr} ciphertexts. Only Ok/Err classes are compared for the error clause; inconsistent padding bytes before a valid final byte are not asserted either way.', '5/C07'),
+ 'C08': ('model-based testing of request histories: exhaustive compositions of totals <= 12 (with zero-length requests inserted), proptest splits, official vectors and stored golden inputs for the feedback==0 branch, against a from-the-specification ZUC and the single-request keystream (metamorphic)',
+         'A history is a vector of request sizes interpreted on one library generator; the concatenated output must equal the reference keystream prefix and the single-request keystream. All 4095 compositions of totals 0..=12 x 3 (key, iv), the same with zero-length requests at the front/back/doubled/between parts, 3*10^4 (thorough 4*10^5) generated splits up to 4096 (65536) words, the four official vectors, and two golden (key, iv) pairs that drive the LFSR through its feedback==0 case.',
+         'Trusted: harness/src/refimpl/zuc.rs (64-bit arithmetic mod 2^31-1, S0/S1 generated algebraically; anchored on the official vectors incl. word 2000). The 2^-31 feedback==0 event is reached only through the stored golden inputs.', '5/C08'),
+ 'C18': ('property-based differential and metamorphic testing: exhaustive LENGTH grid 0..=600 over all bearers and directions, proptest parameters/lengths, against from-the-specification EEA3/EIA3; involution, zero-tail and MAC-invariance relations; official test sets',
+         'Every LENGTH 1..=600 (EEA3) and 0..=600 (EIA3) x 4 parameter draws covering all 32 bearers and both directions, plus 3*10^4 (thorough 3*10^5) generated cases per function with lengths to 2^16 (2^20) bits, COUNT edge values, exact and surplus message words: output == reference; EEA3 returns ceil(LENGTH/32) words with zero bits beyond LENGTH and is an involution on the first LENGTH bits; EIA3 is unchanged by garbage beyond LENGTH and equals the reference after a bit flip inside.',
+         'Trusted: reference EEA3/EIA3 anchored on the official test sets. Inputs respect the stated preconditions (BEARER < 32, DIRECTION < 2, enough message words).', '5/C18'),
 }
 PENDING_REASON = 'check not implemented yet in this commit (work in progress; planned in DESIGN.md section 5) — not claimed until its machinery exists and is silent on the unchanged tree'
 
